@@ -12,8 +12,22 @@ def main():
     def body():
         entries = ['VerifHarness_C12_Paths', 'VerifHarness_C12_Options', 'VerifHarness_C12_DepthGuard']
         H = ['c12_harness.go', 'c12_intr_sym.go']
-        prog, secs = driver.load('prover', 'prover', H, entries)
+        prog, secs = driver.load('prover', 'prover', H, entries + ['VerifHarness_C12_Roots'])
         run.log('SSA of %d functions built in %.1fs' % (len(prog['funcs']), secs))
+        # structural obligation on the real SSA: nothing reachable from the circuit definitions or the construction paths iterates over a
+        # map (Go randomises the order per run: constraint/wire order, hence the serialised system and the keys, would differ between processes)
+        maprange = []
+        for fn, f in prog['funcs'].items():
+            if 'VerifHarness' in fn or '/harness' in (f.get('pos') or ''):
+                continue
+            for b in f.get('blocks', []):
+                for ins in b.get('instrs', []):
+                    if ins.get('op') == 'Range':
+                        t = prog['types'][ins['x']['t']] if isinstance(ins.get('x'), dict) and 't' in ins['x'] else None
+                        if t and str(t.get('str', '')).startswith('map['):
+                            maprange.append('%s (%s)' % (fn, ins.get('pos', f.get('pos'))))
+        run.obligation('no function reachable from the circuit definitions or the construction paths ranges over a map (%d functions scanned on the SSA)' % len(prog['funcs']),
+                       'unsat' if not maprange else 'sat', 'unsat', 0.0, sites=maprange[:5])
         stubs.PARAMS['maxdim'] = 4 if run.thorough else 3
         fails = []
         for e in entries:
@@ -44,14 +58,14 @@ def main():
             run.obligation('%s: two compilations in one process give the identical serialisation (supplementary concrete check, not a solver verdict)' % k, 'unsat' if same else 'sat', 'unsat', 0.0)
         nondet = any(o['verdict'] == 'sat' and 'identical serialisation' in o['name'] for o in run.obls)
         unsupported_range = any('instruction Range' in s or 'instruction Next' in s for s in run.inconclusive)
-        if fails or nondet or unsupported_range:
+        if fails or nondet or unsupported_range or maprange:
             try:
                 failed, panicked, out = driver.replay_native('prover', 'prover', ['c12_native.go'], 'VerifHarness_C12_Native', {}, timeout=2400)
             except Exception as x:  # noqa
                 failed, panicked, out = [], False, repr(x)
                 run.inconclusive.append('native replay failed to run: %r' % (x,))
             if failed or panicked:
-                msg = fails[0][1].info['msg'] if fails and fails[0][1].status == 'assert' else ('nondeterministic compilation' if nondet else 'map iteration in circuit construction')
+                msg = fails[0][1].info['msg'] if fails and fails[0][1].status == 'assert' else ('nondeterministic compilation' if nondet else 'map iteration in circuit construction%s' % ((' at ' + maprange[0]) if maprange else ''))
                 run.violation('%s -- native run of the real construction paths fails: %s' % (msg, (sorted(set(failed)) or ['panic'])[:3]),
                               {'assertion': msg, 'native_failed': sorted(set(failed)), 'native_output_tail': out[-1500:]}, key='C12:' + msg[:40])
             elif fails:
